@@ -148,6 +148,12 @@ def RCfg.now : RCfg := RCfg.repaired
 def Snap.clearFlags (sn : Snap) : Snap :=
   { sn with failed := fun _ => false, running := fun _ => false }
 
+/-- the procedure for a recovery file written by a run that FAILED (no process died): only the failure
+flags are cleared.  A child that the failed run left `running` stays blocked (`resumeInit` starts it as
+`out`; in the library `_on_run` then takes the branch "start from a broken process" and the run is
+refused) — by C06 a failed run leaves no such child, so on such files this is `clearFlags` -/
+def Snap.clearFailed (sn : Snap) : Snap := { sn with failed := fun _ => false }
+
 /-! ### removing the cause
 
 Besides making the failing function work again (the fault table is not consulted by the resumed
@@ -350,6 +356,10 @@ def rerunSet (rc : RCfg) (isComp innerChanged : Nat → Bool) (i : Nat) : Bool :
 children that cannot answer from their cache, see `rerunSet`) -/
 def resumeFromC (rc : RCfg) (comp : Nat → Bool) (d : Dag) (s : S) : RS :=
   resumeInit rc comp d (snapshot rc s).clearFlags
+
+/-- … when only the failure flags are cleared -/
+def resumeFromFailed (rc : RCfg) (comp : Nat → Bool) (d : Dag) (s : S) : RS :=
+  resumeInit rc comp d (snapshot rc s).clearFailed
 
 /-- a level whose children are all function nodes -/
 def resumeFrom (rc : RCfg) (d : Dag) (s : S) : RS := resumeFromC rc (fun _ => false) d s
